@@ -44,6 +44,23 @@ def label_pool(m):
     return 'mix', INTS + STRS
 
 
+def raw_duplicates(obj):
+    '''True if two labels held by the index are equal by Python equality (the library's notion of a duplicate).'''
+    try:
+        raw = [tuple(r) for r in obj.values] if obj.depth > 1 else list(obj.values)
+    except Exception:
+        return True
+    for i in range(len(raw)):
+        for j in range(i + 1, len(raw)):
+            try:
+                a, b = raw[i], raw[j]
+                if (all(x == y for x, y in zip(a, b)) if isinstance(a, tuple) else bool(a == b)):
+                    return True
+            except Exception:
+                continue
+    return False
+
+
 class IndexOps:
 
     # ------------------------------------------------------------------ generation
@@ -669,7 +686,13 @@ class IndexOps:
             if vals != exp_labels:
                 fail(o, f'values {vals!r:.300} != {exp_labels!r:.300}')
             if len(set(vals)) != len(vals):
-                fail('C02.unique', f'duplicate labels held: {vals!r:.300}')
+                if raw_duplicates(obj):
+                    fail('C02.unique', f'duplicate labels held: {vals!r:.300}')
+                # labels that differ for Python (datetime.datetime vs numpy.datetime64 of the same instant) but not for the
+                # model's normalisation: the index is unique by the library's own notion; the model cannot follow it
+                self.stats['unmodelled:labels-equal-only-after-normalisation'] += 1
+                self.ents.pop(e.h, None)
+                return
             st, rv = call(lambda: norm_list(list(reversed(obj))))
             if st == 'raise' or rv != exp_labels[::-1]:
                 fail(o, f'reversed {rv!r:.300} != {exp_labels[::-1]!r:.300}')
